@@ -528,3 +528,81 @@ func numberCases(r *Rng, n int, cf *CoqFile, st *Stats) {
 	}
 	cf.AddCases("dim_cases", "list Z * list Z * list Z * list Z", "check_dim", items)
 }
+
+// ---------------------------------------------------------------------------
+// percentage reference ranges of lab()/lch()/oklab()/oklch()/color(): observed
+// through the public API.  For a function and a component, "p%" stands for
+// p/100 * ref; the ref esbuild uses is the candidate for which the percentage
+// form and the number form minify to the same hex colour.
+
+func pctRefCases(r *Rng, cf *CoqFile, st *Stats) {
+	type cand struct {
+		n, d int64
+	}
+	cands := []cand{{100, 1}, {125, 1}, {150, 1}, {2, 5}, {1, 1}}
+	type fnSpec struct {
+		id   int
+		name string
+		base [3]string // in-gamut base values
+		pre  string    // e.g. "srgb " for color()
+		comps []int
+	}
+	fns := []fnSpec{
+		{1, "lab", [3]string{"50", "10", "10"}, "", []int{0, 1, 2}},
+		{2, "lch", [3]string{"50", "20", "40"}, "", []int{0, 1}},
+		{3, "oklab", [3]string{"0.5", "0.05", "0.05"}, "", []int{0, 1, 2}},
+		{4, "oklch", [3]string{"0.5", "0.08", "40"}, "", []int{0, 1}},
+		{5, "color", [3]string{"0.5", "0.4", "0.3"}, "srgb ", []int{0, 1, 2}},
+	}
+	minify := func(v string) (string, bool) {
+		out, err := transformCSS("a{color:"+v+"}", true, true, nil)
+		if err != nil || !strings.HasPrefix(out, "a{color:") {
+			return "", false
+		}
+		return out[len("a{color:") : len(out)-1], true
+	}
+	var items []string
+	for _, f := range fns {
+		for _, comp := range f.comps {
+			// pick a percentage for which the colour is inside sRGB (then minification prints a hex colour)
+			ps := []int64{40, 50, 60, 45, 55}
+			if comp != 0 {
+				ps = []int64{10, 15, 20, 12, 8}
+			}
+			start := r.Intn(len(ps))
+			var p int64
+			var pctOut string
+			found := false
+			for k := 0; k < len(ps) && !found; k++ {
+				p = ps[(start+k)%len(ps)]
+				args := f.base
+				args[comp] = fmt.Sprintf("%d%%", p)
+				out, ok := minify(f.name + "(" + f.pre + strings.Join(args[:], " ") + ")")
+				if ok && strings.HasPrefix(out, "#") {
+					pctOut, found = out, true
+				}
+			}
+			if !found {
+				items = append(items, fmt.Sprintf("(%d,%d,0,1)", f.id, comp)) // shows up as a correspondence mismatch
+				continue
+			}
+			var matches []cand
+			for _, c := range cands {
+				num := new(bigRat).SetFrac64(p*c.n, 100*c.d)
+				args2 := f.base
+				args2[comp] = num.FloatString(6)
+				numOut, ok := minify(f.name + "(" + f.pre + strings.Join(args2[:], " ") + ")")
+				if ok && numOut == pctOut {
+					matches = append(matches, c)
+				}
+			}
+			n, d := int64(0), int64(1)
+			if len(matches) == 1 {
+				n, d = matches[0].n, matches[0].d
+			}
+			items = append(items, fmt.Sprintf("(%d,%d,%d,%d)", f.id, comp, n, d))
+			st.Note("pct-reference", fmt.Sprint(f.name, comp, p), true)
+		}
+	}
+	cf.AddCases("pctref_cases", "Z * Z * Z * Z", "check_pctref", items)
+}
